@@ -330,7 +330,7 @@ func checkEpsilonCollision(c *Ctx, classes map[string]rset) {
 					} else {
 						// index of a table: starts at 0
 						set, known = rset{{0, 0}}, true
-						what = "the indices of " + what
+						what = "the indices of a table" // the table's name is not part of the construct
 					}
 					if !known {
 						return true
